@@ -384,7 +384,7 @@ PROPS['C09'] = dict(
 RULE_ADDENDA = {
     'C01': "Also: slowSave (a Save parked inside the Persistence while the read routine and a publisher of the other level store); "
            "1 in 4 histories start from an adopted session whose pending identifiers stand 1-3 before the 14-bit wrap; every "
-           "history draws pipe-like or socket-like connections. writerStuckThenReadFails (a publisher parked inside Write while only the inbound direction fails: the read routine must give the connection up); emptyPayloadCut (a fault right behind a packet without payload). Behind the recording Persistence double sits, per case, its own map (5 in 8), the library's in-memory map (2 in 8) or mqtt.FileSystem on a scratch directory (1 in 8). One case in five runs on a session made the way VolatileSession makes it (the library's map, no checksum layer). brokerSend (inbound traffic of all levels shares the read routine's buffers).",
+           "history draws pipe-like or socket-like connections. writerStuckThenReadFails (a publisher parked inside Write while only the inbound direction fails: the read routine must give the connection up); emptyPayloadCut (a fault right behind a packet without payload). Behind the recording Persistence double sits, per case, its own map (5 in 8), the library's in-memory map (2 in 8) or mqtt.FileSystem on a scratch directory (1 in 8). One case in five runs on a session made the way VolatileSession makes it (the library's map, no checksum layer). brokerSend (inbound traffic of all levels shares the read routine's buffers). CleanSession is requested in 1 of 3 histories.",
     'C02': "Also: the first process asks for a clean session in 1 of 3 histories (the adopting processes never do); the broker "
            "model forgets its session on a CONNECT which carries the flag. Behind the recording Persistence double sits, per case, its own map (5 in 8), the library's in-memory map (2 in 8) or mqtt.FileSystem on a scratch directory (1 in 8).",
     'C03': "Also: the first process asks for a clean session in 1 of 3 histories (the adopting processes never do); the broker "
@@ -393,7 +393,7 @@ RULE_ADDENDA = {
            "return, then one more ReadSlices). Ownership is taken as the property states it: the application invoked ReadSlices "
            "again after the return (a failing marker Save in that invocation excepted, as documented). The application skips every BigMessage in half of the histories (the next ReadSlices discards the payload); bigSkippedThenLoss: a message beyond the read buffer whose tail is cut by a read fault (reset, EOF, stall) while the skipped payload is discarded. Inbound identifiers may alias one in flight modulo 0x4000. Behind the recording Persistence double sits, per case, its own map (5 in 8), the library's in-memory map (2 in 8) or mqtt.FileSystem on a scratch directory (1 in 8).",
     'C05': "Also: 1 in 4 histories start from a session positioned at the identifier wrap; optional restart at the end "
-           "(adoption, continuation, resend order and DUP of the next process). Behind the recording Persistence double sits, per case, its own map (5 in 8), the library's in-memory map (2 in 8) or mqtt.FileSystem on a scratch directory (1 in 8). One case in five runs on a session made the way VolatileSession makes it (the library's map, no checksum layer). brokerSend (inbound traffic).",
+           "(adoption, continuation, resend order and DUP of the next process). Behind the recording Persistence double sits, per case, its own map (5 in 8), the library's in-memory map (2 in 8) or mqtt.FileSystem on a scratch directory (1 in 8). One case in five runs on a session made the way VolatileSession makes it (the library's map, no checksum layer). brokerSend (inbound traffic). CleanSession is requested in 1 of 3 histories (never by the process which adopts the session at the end).",
     'C06': "Also (full-size read buffer only): 1 in 400 messages has a remaining length of 2,097,151, 2,097,152 or 2,097,153 bytes (three-byte to four-byte length). In 1 of 4 cases an earlier connection came first, which delivered 1-3 packets with a body and then failed inside ReadSlices (nothing of it may leak into the next connection).",
     'C07': "Also: storeFault(S|L|D) on the inbound path. Same BigMessage skipping and bigSkippedThenLoss as in C04. Behind the recording Persistence double sits, per case, its own map (5 in 8), the library's in-memory map (2 in 8) or mqtt.FileSystem on a scratch directory (1 in 8). One ending in five: Disconnect from another goroutine while the application holds the last return.",
     'C08': "Also: resendFault (connection lost; a write fault 0-90 bytes into the retransmission on the next connection, of kind "
@@ -403,17 +403,17 @@ RULE_ADDENDA = {
            "connection after a schedule of 0-6 steps (so many bytes, then a pause of 0-80 ms), 4 KiB socket buffers in half of "
            "the cases; oracle over the bytes each connection received (strict reference decoder, payload equality, success only "
            "when complete; time budgets are inconclusive, never violations). Non-trivial there: a reconnect, a connection which "
-           "ended inside a packet, or a request which failed. cancelledWhileWaiting: 1-3 Publish calls with a quit channel wait for the connection and are cancelled, then 2-4 publishes at once. One ending in four: Disconnect (quit fired, firing later, or nil) while a writer is parked inside a packet. Behind the recording Persistence double sits, per case, its own map (5 in 8), the library's in-memory map (2 in 8) or mqtt.FileSystem on a scratch directory (1 in 8). One case in five runs on a session made the way VolatileSession makes it (the library's map, no checksum layer).",
-    'C09': "Also: the over-the-limit payload class is drawn in 1 of 8 quick-tier cases.",
+           "ended inside a packet, or a request which failed. cancelledWhileWaiting: 1-3 Publish calls with a quit channel wait for the connection and are cancelled, then 2-4 publishes at once. One ending in four: Disconnect (quit fired, firing later, or nil) while a writer is parked inside a packet. Behind the recording Persistence double sits, per case, its own map (5 in 8), the library's in-memory map (2 in 8) or mqtt.FileSystem on a scratch directory (1 in 8). One case in five runs on a session made the way VolatileSession makes it (the library's map, no checksum layer). wanderingPingresp (an unsolicited PINGRESP, possibly overtaking a PINGREQ in transit); a parked Write may fail once released; no more successful Pings than complete PINGREQ packets.",
+    'C09': "Also: the over-the-limit payload class is drawn in 1 of 8 quick-tier cases. The over-the-limit string class also comes as 21,846 three-byte characters (over 65,535 bytes, under 65,535 characters).",
     'C10': "Also: reader states skipping-dup-big (discarding the payload of a retransmitted exactly-once message larger than the "
            "read buffer, tail outstanding) and holding-big-tail-outstanding; failure 'silence' (nothing but PauseTimeout); in state handshake the broker may stay silent for good. Extra "
            "invariant: once ReadSlices reported an error while reading from a connection, no later ReadSlices reads from it. Reader state connack-arrives-under-slow-save (a persisted publish is inside a parked Persistence.Save when the CONNACK is released). mid-packet-stall prefixes also end inside the remaining-length bytes. Behind the recording Persistence double sits, per case, its own map (5 in 8), the library's in-memory map (2 in 8) or mqtt.FileSystem on a scratch directory (1 in 8). One case in five runs on a session made the way VolatileSession makes it (the library's map, no checksum layer). Failed connects include Dialer errors which wrap context.Canceled / context.DeadlineExceeded.",
     'C11': "TestC11CounterLap: 3-40 (thorough up to 530) Subscribe/Unsubscribe requests stay unanswered (every 3rd or 7th "
            "abandoned, or none), then 8200 answered requests make the 13-bit identifier counter lap them; answers for the open "
            "ones follow in forward, reverse or interleaved order. Also: connectFails (connection lost; the next attempt parks in the Dialer or in the handshake; 1-3 requests are "
-           "issued meanwhile; the attempt fails; they must return without any further ReadSlices). 1 in 8 requests carries one filter sized such that the remaining length is 126-130. Behind the recording Persistence double sits, per case, its own map (5 in 8), the library's in-memory map (2 in 8) or mqtt.FileSystem on a scratch directory (1 in 8). One case in five runs on a session made the way VolatileSession makes it (the library's map, no checksum layer).",
+           "issued meanwhile; the attempt fails; they must return without any further ReadSlices). 1 in 8 requests carries one filter sized such that the remaining length is 126-130. Behind the recording Persistence double sits, per case, its own map (5 in 8), the library's in-memory map (2 in 8) or mqtt.FileSystem on a scratch directory (1 in 8). One case in five runs on a session made the way VolatileSession makes it (the library's map, no checksum layer). malformedPingresp (PINGRESP with a remaining length of 1 or 2 while a Ping waits); a Ping counts as answered only by the exact bytes d0 00.",
     'C12': "Also: in state dialing the Dialer may ignore the end of its context and hand out a connection after Close (it must "
-           "be closed; Close itself need not beat such a Dialer). State next-write-fails (the next Write on the connection times out or resets: DISCONNECT itself, if no request comes first). Behind the recording Persistence double sits, per case, its own map (5 in 8), the library's in-memory map (2 in 8) or mqtt.FileSystem on a scratch directory (1 in 8). One case in five runs on a session made the way VolatileSession makes it (the library's map, no checksum layer).",
+           "be closed; Close itself need not beat such a Dialer). State next-write-fails (the next Write on the connection times out or resets: DISCONNECT itself, if no request comes first). Behind the recording Persistence double sits, per case, its own map (5 in 8), the library's in-memory map (2 in 8) or mqtt.FileSystem on a scratch directory (1 in 8). One case in five runs on a session made the way VolatileSession makes it (the library's map, no checksum layer). Every error ReadSlices returns before ErrClosed must get a non-nil ReadBackoff.",
     'C13': "Also: after a violation and the redial a PUBLISH is sent on the fresh connection and must come out as sent (clean "
            "slate: no skip count, big-message marker or partial packet carried over). Setup may include 0-2 publishes per level refused by a failing Save; announced topic lengths up to 0xffff. TestC13AckBeforeWritten: 0-2 pending transfers, the next publish parks 0-12 bytes into its Write, the broker acknowledges everything including the packet in transit, the Write then ends by reset, timeout or completion: no panic, the call returns, the session goes on.",
     'C14': "Simulated half, state online without fault: in 1 of 3 cases an earlier persisted publish of the level was refused (its Save failed); the publish which follows must be accepted, report no submission error on its exchange and be on the wire. In 1 of 4 online cases the connection's Close reports an error (as a TLS close_notify to a peer which is gone).",
@@ -423,7 +423,7 @@ RULE_ADDENDA = {
            "(only 'no panic' is judged then); 'second life' (the adopted client fills its queues, the process stops, the next "
            "AdoptSession without new damage must work, connect and complete). Before the second stop 0-4 PUBRECs are released; every transfer the adopted client itself accepted and had pending at its stop must be on the first connection of the next process. Behind the recording Persistence double sits, per case, its own map (5 in 8), the library's in-memory map (2 in 8) or mqtt.FileSystem on a scratch directory (1 in 8). In 1 of 4 adoptions the store is mqtt.FileSystem with 1-3 stray directory entries next to the records: an upper-case spelling of a record's name, a sub-directory named like a key, a spool leftover, foreign files, names of 4 and 6 hexadecimals.",
     'C17': "Also: resendFails (connection lost; the next one resets 0-80 bytes into the retransmission; the one after is healthy). ackDeleteFails (the Delete asked for by an acknowledgement fails; reconnect). TestC17Slots/TestC11CounterLap: in 1 of 3 cases an outage first, with 1032 requests refused while down. twoForTheLastSlot (one slot left, the reconnect parked inside its retransmission, two publishes arrive: exactly one ErrMax, no blocking). Behind the recording Persistence double sits, per case, its own map (5 in 8), the library's in-memory map (2 in 8) or mqtt.FileSystem on a scratch directory (1 in 8). Slots case: optionally a lone request abandoned after submission, then its successor (must not get the identifier whose answer is still owed).",
-    'C18': "Also: in a held handshake a persisted publish whose Save is still running when the CONNACK arrives. Behind the recording Persistence double sits, per case, its own map (5 in 8), the library's in-memory map (2 in 8) or mqtt.FileSystem on a scratch directory (1 in 8). An attempt whose CONNECT gets through (also with one tolerated expiry after progress) and whose CONNACK accepts at once must establish the connection.",
+    'C18': "Also: in a held handshake a persisted publish whose Save is still running when the CONNACK arrives. Behind the recording Persistence double sits, per case, its own map (5 in 8), the library's in-memory map (2 in 8) or mqtt.FileSystem on a scratch directory (1 in 8). An attempt whose CONNECT gets through (also with one tolerated expiry after progress) and whose CONNACK accepts at once must establish the connection. Raw CONNACK variants include odd reserved flag bytes (0x03, 0x81, 0xff) with return code 0.",
 }
 for _k, _v in RULE_ADDENDA.items():
     PROPS[_k]['rule'] = PROPS[_k]['rule'].rstrip() + ' ' + _v
